@@ -89,7 +89,7 @@ func (c *ExpressionParser) VariableNames() []string {
 func (c *ExpressionParser) ParseString(expression string) error {
 	c.Clear()
 	c.expression = strings.Trim(expression, " \t\r\n")
-	c.originalTokens = c.tokenizeExpression(c.expression)
+	c.originalTokens = c.tokenizeExpression(expression)
 	return c.performParsing()
 }
 
@@ -190,8 +190,9 @@ func (c *ExpressionParser) matchTokensWithTypes(types ...int) bool {
 }
 
 func (c *ExpressionParser) tokenizeExpression(expression string) []*tokenizers.Token {
-	expression = strings.Trim(expression, " \t\r\n")
-	if len(expression) > 0 {
+	// The text is tokenized as given (surrounding blanks are skipped as whitespace tokens),
+	// so that token positions refer to the caller's text and not to a trimmed copy of it.
+	if len(strings.Trim(expression, " \t\r\n")) > 0 {
 		c.tokenizer.SetSkipWhitespaces(true)
 		c.tokenizer.SetSkipComments(true)
 		c.tokenizer.SetSkipEof(true)
